@@ -13,7 +13,7 @@ import (
 	"verif/sim"
 )
 
-var c15Names = []string{"data.bin", "my file.txt", "report", "a b c.log", "x", "notes.md", "IMG 0001.raw", "weird.name.here", "Z", "-dash.txt", "--double", "été.txt", "tab\tname"}
+var c15Names = []string{"-", "-k", "data.bin", "my file.txt", "report", "a b c.log", "x", "notes.md", "IMG 0001.raw", "weird.name.here", "Z", "-dash.txt", "--double", "été.txt", "tab\tname"}
 
 func genForeignStream(r *sim.Rng, format string) *checks.StreamRecipe {
 	pl := sim.GenPayload(r, 3000)
@@ -80,10 +80,17 @@ func genC15(r *sim.Rng, tier string, idx int) *GCase {
 		} else {
 			c.Files = append(c.Files, FileSpec{Name: "\x00stdin", Kind: "plain", Payload: &pl})
 		}
-		c.TTY = r.Chance(1, 4)
+		// (whether standard output is a terminal is not part of the property:
+		// the simulated stdout is never one)
+		if r.Bool() {
+			v.Files = []string{"-"} // the documented spelling of "standard input"
+		}
 	}
 	for i := 0; i < nops; i++ {
 		name := pickName(dash)
+		if name == "-" && !v.Decompress {
+			name = "-z-" // a bare "-" operand means standard input
+		}
 		var f FileSpec
 		if !v.Decompress {
 			f = genPlainFile(r, name, 3000)
@@ -110,7 +117,9 @@ func genC15(r *sim.Rng, tier string, idx int) *GCase {
 				pl := sim.GenPayload(r, 300)
 				f.Kind, f.Payload, f.Stream = "garbage", &pl, nil
 			case 3:
-				f.Name = name // unknown suffix
+				if name != "-" {
+					f.Name = name // unknown suffix
+				}
 			}
 		}
 		used[f.Name] = true
@@ -148,6 +157,15 @@ func genC15(r *sim.Rng, tier string, idx int) *GCase {
 			applyExpect(st, e, out)
 		}
 		if len(produced) == 0 {
+			break
+		}
+		dashName := false
+		for _, p := range produced {
+			if p == "-" {
+				dashName = true // as an operand "-" means standard input, not this file
+			}
+		}
+		if dashName {
 			break
 		}
 		nv := Inv{Preset: sim.Pick(r, []int{0, -1}), Decompress: !prev.Decompress, Keep: r.Chance(1, 4), Force: r.Chance(1, 4), DashDash: prev.DashDash, Files: produced, Bundle: r.Bool()}
@@ -224,7 +242,8 @@ func runC15(c *GCase, x *sim.Ctx) *sim.Violation {
 		anyFail := false
 		var wantStdoutPlain []byte
 		stdoutFormat := ""
-		if len(v.Files) == 0 {
+		stdinRun := len(v.Files) == 0 || (len(v.Files) == 1 && v.Files[0] == "-")
+		if stdinRun {
 			// stdin -> stdout
 			e := Expect{Operand: "-", ToStdout: true, Compress: !v.Decompress}
 			f := v.Format
@@ -254,6 +273,9 @@ func runC15(c *GCase, x *sim.Ctx) *sim.Violation {
 			exps = append(exps, e)
 		}
 		for _, op := range v.Files {
+			if stdinRun {
+				break
+			}
 			e := modelOperand(v, model, op)
 			exps = append(exps, e)
 			var out []byte
@@ -324,7 +346,7 @@ func runC15(c *GCase, x *sim.Ctx) *sim.Violation {
 			}
 		}
 		// stdout
-		if v.Stdout || len(v.Files) == 0 {
+		if v.Stdout || stdinRun {
 			if !v.Decompress {
 				plain, ok := decodeConcat(stdoutFormat, res.Stdout)
 				if stdoutFormat == "" {
